@@ -56,8 +56,22 @@ def strategy(tier, shard):
         nS, sc = spec["nS"], spec["scale"]
         cfg = dict(solver="rvi", gamma=1.0, eps=float(sc * 10.0 ** draw(st.sampled_from([-5, -4, -3, -2, -1, 0, 0.5, 1.5]))),
                    mbs=draw(st.one_of(st.integers(1, nS + 2), st.integers(1, max(1, nS // 2)))))
-        return dict(spec=spec, cfg=cfg, limit=draw(st.sampled_from([3, 30, 3000, 3000, 3000])),
-                    drift_probe=draw(st.integers(0, 3)) == 0)
+        limit = draw(st.sampled_from([3, 30, 3000, 3000, 3000]))
+        # histories: the limit may be reached in two calls; the split is placed around the model's convergence sweep
+        # (one sweep before it, at it - so that the second call starts on a converged solver - or anywhere)
+        from vf.checks.c08 import _model_conv_iteration
+
+        nconv = _model_conv_iteration(spec, cfg, cap=300)
+        opts = [None, None, draw(st.integers(1, max(1, limit - 1)))]
+        if nconv is not None:
+            opts += [max(1, nconv - 1), max(1, nconv - 2), nconv]
+        split = draw(st.sampled_from(opts))
+        if split is not None and split >= limit:
+            split = None
+        if spec.get("v0") is not None and all(float(x).is_integer() for x in spec["v0"]) and draw(st.integers(0, 2)) == 0:
+            spec["enc"]["v0_dtype"] = "int"  # initial_value returns an integer-typed estimate (e.g. a state component)
+            spec["flags"] = spec["flags"] + ["v0-int-dtype"]
+        return dict(spec=spec, cfg=cfg, limit=limit, split=split, drift_probe=draw(st.integers(0, 3)) == 0)
 
     return cases()
 
@@ -84,7 +98,18 @@ def judge(case):
     try:
         problem = sut.make_problem(spec)
         solver = sut.make_solver(problem, cfg)
-        st = solver.solve(limit)
+        split = case.get("split")
+        if split:
+            st1 = solver.solve(int(split))
+            first_converged = int(st1.info.iteration) < int(split)
+            classes.append("two-calls")
+            st = solver.solve(limit - int(split))
+            second_sweeps = int(st.info.iteration) - int(st1.info.iteration)
+            if first_converged or second_sweeps < limit - int(split):
+                limit = int(st.info.iteration) + 1  # the last call ended by convergence
+                classes.append("second-call-converged" + ("-on-converged-solver" if first_converged else ""))
+        else:
+            st = solver.solve(limit)
     except Exception as e:
         return verdict_fail(sut_bucket(e), f"raised {e!r}", classes=classes)
     it = int(st.info.iteration)
@@ -95,7 +120,7 @@ def judge(case):
     converged = it < limit
     tol = 1e-9 * (1 + rmax + float(np.max(np.abs(vals))) + float(np.max(np.abs(V0))))
     known = None
-    if it == 1 and abs(V0[-1]) > 0:
+    if it == 1 and abs(V0[-1]) > 0 and not case.get("split"):
         known = F11  # region of known finding F11 (first sweep, non-zero initial value at the reference state)
     info = f"eps={eps:.4g} iteration={it} gain={gain:.9g} g*={gstar:.9g} layout={sut.layout(solver)}"
 
